@@ -503,17 +503,36 @@ Definition ok_label (C : gmap N batch) (l : label) : Prop :=
   | _ => True
   end.
 
+(* Close: afterwards the LevelDB handle is closed.  Only GetNext (reader sections, new readers),
+   cancellation, InterruptGetNext, Close itself and cache eviction are inside the discipline on a
+   closed stream (FSM.Restore swaps the new stream in before it closes the old one, so Add and
+   Delete never reach a closed stream; Get panics on it on a cache miss). *)
+Definition is_close (l : label) : bool := match l with LClose => true | _ => false end.
+Definition is_closed (ls : list label) : bool := existsb is_close ls.
+Definition ok_after_close (l : label) : Prop :=
+  match l with
+  | LAdd _ _ | LDelete _ | LGet _ => False
+  | _ => True
+  end.
+
+Lemma is_closed_snoc ls l : is_closed (ls ++ [l]) = is_closed ls || is_close l.
+Proof. unfold is_closed. rewrite existsb_app. simpl. rewrite orb_false_r. reflexivity. Qed.
+
 Inductive exec : list label -> cres -> Prop :=
 | exec_nil : exec [] (Running cinit)
 | exec_snoc ls c l r :
-    exec ls (Running c) -> ok_label (contents ls) l -> cstep c l = Some r -> exec (ls ++ [l]) r.
+    exec ls (Running c) -> ok_label (contents ls) l -> (is_closed ls = true -> ok_after_close l) ->
+    cstep c l = Some r -> exec (ls ++ [l]) r.
 
 Record CInv (ls : list label) (c : cstate) : Prop := {
   ci_inv : Inv (c_out c);
   ci_abs : msgs_of (db (c_out c)) = contents ls;
   ci_wait : forall t th, c_threads c !! t = Some th -> t_st th = TWait ->
             no_successor (contents ls) (t_x th);
-  ci_empty : forall t th, c_threads c !! t = Some th -> t_st th = TDone None -> t_cancelled th = true }.
+  ci_empty : forall t th, c_threads c !! t = Some th -> t_st th = TDone None ->
+             t_cancelled th = true \/ c_closed c = true;
+  ci_closed : c_closed c = is_closed ls;
+  ci_nowait : c_closed c = true -> forall t th, c_threads c !! t = Some th -> t_st th <> TWait }.
 
 Lemma wake_st th : t_st (wake th) <> TWait.
 Proof. unfold wake. destruct (t_st th) eqn:H; simpl; congruence. Qed.
@@ -538,28 +557,36 @@ Proof.
   intros H k' Hs. apply H. destruct Hs as [v Hv]. apply lookup_delete_Some in Hv as [_ Hv]. eauto.
 Qed.
 
-Lemma reader_step_cases o th o' th' :
-  Inv o -> reader_step o th = Some (o', th') ->
+Lemma reader_step_closed o th :
+  (t_st th = TStart \/ t_st th = TLoop) ->
+  reader_step true o th = Some (o, Thread (t_x th) (TDone None) (t_cancelled th)).
+Proof. unfold reader_step. intros [->| ->]; reflexivity. Qed.
+
+Lemma reader_step_cases cl o th o' th' :
+  Inv o -> reader_step cl o th = Some (o', th') ->
   Inv o' /\ db o' = db o /\ t_x th' = t_x th /\ (t_st th = TStart \/ t_st th = TLoop) /\
   match t_st th' with
-  | TDone (Some (k, b)) => is_successor (msgs_of (db o)) (t_x th) k b /\ t_cancelled th' = t_cancelled th
-  | TDone None => no_successor (msgs_of (db o)) (t_x th) /\ t_st th = TLoop /\
-                  t_cancelled th = true /\ t_cancelled th' = true
-  | TWait => no_successor (msgs_of (db o)) (t_x th) /\ t_st th = TLoop /\ t_cancelled th = false
-  | TLoop => no_successor (msgs_of (db o)) (t_x th) /\ t_st th = TStart /\ t_cancelled th' = t_cancelled th
+  | TDone (Some (k, b)) => cl = false /\ is_successor (msgs_of (db o)) (t_x th) k b /\ t_cancelled th' = t_cancelled th
+  | TDone None => cl = true \/
+                  (no_successor (msgs_of (db o)) (t_x th) /\ t_st th = TLoop /\
+                   t_cancelled th = true /\ t_cancelled th' = true)
+  | TWait => cl = false /\ no_successor (msgs_of (db o)) (t_x th) /\ t_st th = TLoop /\ t_cancelled th = false
+  | TLoop => cl = false /\ no_successor (msgs_of (db o)) (t_x th) /\ t_st th = TStart /\ t_cancelled th' = t_cancelled th
   | TStart => False
   end.
 Proof.
-  intros HI. unfold reader_step.
-  pose proof (next_unlocked_frame o (t_x th) HI) as [HI' Hdb].
-  pose proof (next_unlocked_spec o (t_x th) HI) as Hspec.
-  destruct (t_st th) eqn:Hst; try discriminate;
-    destruct (next_unlocked o (t_x th)) as [r o1]; simpl in *;
-    destruct r as [[k b]|].
-  - intros [= <- <-]. simpl. tauto.
-  - intros [= <- <-]. simpl. tauto.
-  - intros [= <- <-]. simpl. tauto.
-  - destruct (t_cancelled th) eqn:Hc; intros [= <- <-]; simpl; tauto.
+  intros HI. destruct cl.
+  - unfold reader_step. destruct (t_st th) eqn:Hst; try discriminate; intros [= <- <-]; simpl; tauto.
+  - unfold reader_step.
+    pose proof (next_unlocked_frame o (t_x th) HI) as [HI' Hdb].
+    pose proof (next_unlocked_spec o (t_x th) HI) as Hspec.
+    destruct (t_st th) eqn:Hst; try discriminate;
+      destruct (next_unlocked o (t_x th)) as [r o1]; simpl in *;
+      destruct r as [[k b]|].
+    + intros [= <- <-]. simpl. tauto.
+    + intros [= <- <-]. simpl. tauto.
+    + intros [= <- <-]. simpl. tauto.
+    + destruct (t_cancelled th) eqn:Hc; intros [= <- <-]; simpl; tauto.
 Qed.
 
 Lemma CInv_snoc ls l c :
@@ -567,21 +594,29 @@ Lemma CInv_snoc ls l c :
   msgs_of (db (c_out c)) = contents_step (contents ls) l ->
   (forall t th, c_threads c !! t = Some th -> t_st th = TWait ->
      no_successor (contents_step (contents ls) l) (t_x th)) ->
-  (forall t th, c_threads c !! t = Some th -> t_st th = TDone None -> t_cancelled th = true) ->
+  (forall t th, c_threads c !! t = Some th -> t_st th = TDone None ->
+     t_cancelled th = true \/ c_closed c = true) ->
+  c_closed c = is_closed ls || is_close l ->
+  (c_closed c = true -> forall t th, c_threads c !! t = Some th -> t_st th <> TWait) ->
   CInv (ls ++ [l]) c.
-Proof. intros H1 H2 H3 H4. split; rewrite ?contents_snoc; assumption. Qed.
+Proof. intros H1 H2 H3 H4 H5 H6. split; rewrite ?contents_snoc, ?is_closed_snoc; assumption. Qed.
 
 Lemma exec_inv ls r : exec ls r -> exists c, r = Running c /\ CInv ls c.
 Proof.
-  induction 1 as [|ls c l r Hex IH Hok Hstep].
+  induction 1 as [|ls c l r Hex IH Hok Hafter Hstep].
   - exists cinit. split; [reflexivity|]. split; simpl.
     + exact init_inv.
     + unfold msgs_of, contents, contents0. simpl. apply map_fmap_singleton.
     + intros t th H. rewrite lookup_empty in H. discriminate.
     + intros t th H. rewrite lookup_empty in H. discriminate.
-  - destruct IH as (c0 & [= <-] & [HI Habs Hwait Hempty]).
-    destruct l as [id m|x|x|t x|t|t| |k]; simpl in Hstep, Hok |- *.
+    + reflexivity.
+    + discriminate.
+  - destruct IH as (c0 & [= <-] & [HI Habs Hwait Hempty Hcl Hnw]).
+    assert (Hnw' : forall th0 : thread, c_closed c = true -> t_st (wake th0) <> TWait)
+      by (intros th0 _; apply wake_st).
+    destruct l as [id m|x|x|t x|t|t| |k|]; simpl in Hstep, Hok |- *.
     + (* Add *)
+      destruct (c_closed c) eqn:Hc; [discriminate|].
       destruct Hok as (Hne & Hid & Hnew).
       destruct (add_ok (c_out c) id m HI Hne Hid) as (o' & Hadd & HI' & Habs').
       { intros k e Hk. apply Hnew. rewrite <- Habs. apply msgs_of_is_Some. eauto. }
@@ -592,8 +627,11 @@ Proof.
       * intros t th Ht Hst. apply broadcast_lookup in Ht as (th0 & _ & ->).
         exfalso. exact (wake_st th0 Hst).
       * intros t th Ht Hst. apply broadcast_lookup in Ht as (th0 & Ht0 & ->).
-        rewrite wake_cancelled. apply (Hempty t th0 Ht0). exact (wake_done _ _ Hst).
+        rewrite wake_cancelled. destruct (Hempty t th0 Ht0 (wake_done _ _ Hst)) as [H|H]; [left; exact H|discriminate].
+      * rewrite <- Hcl. reflexivity.
+      * discriminate.
     + (* Delete *)
+      destruct (c_closed c) eqn:Hc; [discriminate|].
       destruct (delete_ok (c_out c) x HI) as (o' & Hdel).
       { destruct Hok as (k & Hkx & Hs). exists k. split; [exact Hkx|].
         apply msgs_of_is_Some. rewrite Habs. exact Hs. }
@@ -603,13 +641,18 @@ Proof.
       * exact HI'.
       * rewrite Habs', Habs. reflexivity.
       * intros t th Ht Hst. apply no_successor_delete. exact (Hwait t th Ht Hst).
-      * exact Hempty.
+      * intros t th Ht Hst. destruct (Hempty t th Ht Hst) as [H|H]; [left; exact H|discriminate].
+      * rewrite <- Hcl. reflexivity.
+      * discriminate.
     + (* Get *)
+      destruct (c_closed c) eqn:Hc; [discriminate|].
       injection Hstep as <-. eexists. split; [reflexivity|]. apply CInv_snoc; simpl.
       * apply get_inv. exact HI.
       * rewrite get_db. exact Habs.
       * exact Hwait.
-      * exact Hempty.
+      * intros t th Ht Hst. destruct (Hempty t th Ht Hst) as [H|H]; [left; exact H|discriminate].
+      * rewrite <- Hcl. reflexivity.
+      * discriminate.
     + (* Spawn *)
       destruct (c_threads c !! t) eqn:Ht; [discriminate|]. injection Hstep as <-.
       eexists. split; [reflexivity|]. apply CInv_snoc; simpl; try assumption.
@@ -619,11 +662,15 @@ Proof.
       * intros t' th Ht' Hst. destruct (decide (t' = t)) as [->|Hne].
         { rewrite lookup_insert in Ht'. injection Ht' as <-. discriminate. }
         rewrite lookup_insert_ne in Ht' by congruence. exact (Hempty t' th Ht' Hst).
+      * rewrite orb_false_r. exact Hcl.
+      * intros Hc t' th Ht'. destruct (decide (t' = t)) as [->|Hne].
+        { rewrite lookup_insert in Ht'. injection Ht' as <-. discriminate. }
+        rewrite lookup_insert_ne in Ht' by congruence. exact (Hnw Hc t' th Ht').
     + (* Reader *)
       destruct (c_threads c !! t) as [th|] eqn:Ht; [|discriminate].
-      destruct (reader_step (c_out c) th) as [[o' th']|] eqn:Hrs; [|discriminate].
+      destruct (reader_step (c_closed c) (c_out c) th) as [[o' th']|] eqn:Hrs; [|discriminate].
       injection Hstep as <-.
-      destruct (reader_step_cases _ _ _ _ HI Hrs) as (HI' & Hdb & Hx & _ & Hcase).
+      destruct (reader_step_cases _ _ _ _ _ HI Hrs) as (HI' & Hdb & Hx & _ & Hcase).
       eexists. split; [reflexivity|]. apply CInv_snoc; simpl.
       * exact HI'.
       * rewrite Hdb. exact Habs.
@@ -634,6 +681,11 @@ Proof.
       * intros t' th0 Ht' Hst. destruct (decide (t' = t)) as [->|Hne].
         { rewrite lookup_insert in Ht'. injection Ht' as <-. rewrite Hst in Hcase. tauto. }
         rewrite lookup_insert_ne in Ht' by congruence. exact (Hempty t' th0 Ht' Hst).
+      * rewrite orb_false_r. exact Hcl.
+      * intros Hc t' th0 Ht'. destruct (decide (t' = t)) as [->|Hne].
+        { rewrite lookup_insert in Ht'. injection Ht' as <-. intros Hst. rewrite Hst in Hcase.
+          destruct Hcase as [Hf _]. congruence. }
+        rewrite lookup_insert_ne in Ht' by congruence. exact (Hnw Hc t' th0 Ht').
     + (* Cancel *)
       destruct (c_threads c !! t) as [th|] eqn:Ht; [|discriminate]. injection Hstep as <-.
       eexists. split; [reflexivity|]. apply CInv_snoc; simpl; try assumption.
@@ -641,17 +693,31 @@ Proof.
         { rewrite lookup_insert in Ht'. injection Ht' as <-. simpl in *. exact (Hwait t th Ht Hst). }
         rewrite lookup_insert_ne in Ht' by congruence. exact (Hwait t' th0 Ht' Hst).
       * intros t' th0 Ht' Hst. destruct (decide (t' = t)) as [->|Hne].
-        { rewrite lookup_insert in Ht'. injection Ht' as <-. reflexivity. }
+        { rewrite lookup_insert in Ht'. injection Ht' as <-. left. reflexivity. }
         rewrite lookup_insert_ne in Ht' by congruence. exact (Hempty t' th0 Ht' Hst).
+      * rewrite orb_false_r. exact Hcl.
+      * intros Hc t' th0 Ht'. destruct (decide (t' = t)) as [->|Hne].
+        { rewrite lookup_insert in Ht'. injection Ht' as <-. simpl. exact (Hnw Hc t th Ht). }
+        rewrite lookup_insert_ne in Ht' by congruence. exact (Hnw Hc t' th0 Ht').
     + (* Interrupt *)
       injection Hstep as <-. eexists. split; [reflexivity|]. apply CInv_snoc; simpl; try assumption.
       * intros t th Ht Hst. apply broadcast_lookup in Ht as (th0 & _ & ->).
         exfalso. exact (wake_st th0 Hst).
       * intros t th Ht Hst. apply broadcast_lookup in Ht as (th0 & Ht0 & ->).
         rewrite wake_cancelled. apply (Hempty t th0 Ht0). exact (wake_done _ _ Hst).
+      * rewrite orb_false_r. exact Hcl.
+      * intros _ t th Ht. apply broadcast_lookup in Ht as (th0 & _ & ->). apply wake_st.
     + (* Evict *)
       injection Hstep as <-. eexists. split; [reflexivity|]. apply CInv_snoc; simpl; try assumption.
-      apply evict_inv. exact HI.
+      * apply evict_inv. exact HI.
+      * rewrite orb_false_r. exact Hcl.
+    + (* Close *)
+      injection Hstep as <-. eexists. split; [reflexivity|]. apply CInv_snoc; simpl; try assumption.
+      * intros t th Ht Hst. apply broadcast_lookup in Ht as (th0 & _ & ->).
+        exfalso. exact (wake_st th0 Hst).
+      * intros t th Ht Hst. right. reflexivity.
+      * rewrite orb_true_r. reflexivity.
+      * intros _ t th Ht. apply broadcast_lookup in Ht as (th0 & _ & ->). apply wake_st.
 Qed.
 
 (* ================================================================================== *)
@@ -681,9 +747,9 @@ Theorem getnext_safe ls c t th k b :
     is_successor (contents ls1) (t_x th) k b.
 Proof.
   intros Hex. remember (Running c) as r eqn:Hr. revert c th Hr.
-  induction Hex as [|ls c0 l r Hex IH Hok Hstep]; intros c th Hr Ht Hst.
+  induction Hex as [|ls c0 l r Hex IH Hok Hafter Hstep]; intros c th Hr Ht Hst.
   - injection Hr as <-. simpl in Ht. rewrite lookup_empty in Ht. discriminate.
-  - subst r. destruct (exec_inv _ _ Hex) as (c0' & [= <-] & [HI Habs _ _]).
+  - subst r. destruct (exec_inv _ _ Hex) as (c0' & [= <-] & [HI Habs _ _ _ _]).
     assert (Hold : forall th0, c_threads c0 !! t = Some th0 -> t_st th0 = TDone (Some (k, b)) ->
                    t_x th0 = t_x th ->
                    exists ls1 ls2 c1 th1, ls ++ [l] = ls1 ++ ls2 /\ exec ls1 (Running c1) /\
@@ -694,24 +760,27 @@ Proof.
       exists ls1, (ls2 ++ [l]), c1, th1. rewrite app_assoc. rewrite <- Hx0.
       split; [reflexivity|]. split; [exact Hex1|]. split; [exact Ht1|]. split; [exact Hx1|].
       split; [exact Hs1|exact Hsucc]. }
-    destruct l as [id m|x|x|t' x|t'|t'| |k']; simpl in Hstep.
-    + destruct (add (c_out c0) id m); [|discriminate]. injection Hstep as <-. simpl in Ht.
+    destruct l as [id m|x|x|t' x|t'|t'| |k'|]; simpl in Hstep.
+    + destruct (c_closed c0); [discriminate|].
+      destruct (add (c_out c0) id m); [|discriminate]. injection Hstep as <-. simpl in Ht.
       apply broadcast_lookup in Ht as (th0 & Ht0 & ->).
       apply (Hold th0 Ht0 (wake_done _ _ Hst)). symmetry. apply wake_x.
-    + destruct (delete_op (c_out c0) x); [|discriminate]. injection Hstep as <-. simpl in Ht.
+    + destruct (c_closed c0); [discriminate|].
+      destruct (delete_op (c_out c0) x); [|discriminate]. injection Hstep as <-. simpl in Ht.
       exact (Hold th Ht Hst eq_refl).
-    + injection Hstep as <-. simpl in Ht. exact (Hold th Ht Hst eq_refl).
+    + destruct (c_closed c0); [discriminate|].
+      injection Hstep as <-. simpl in Ht. exact (Hold th Ht Hst eq_refl).
     + destruct (c_threads c0 !! t') eqn:Ht'; [discriminate|]. injection Hstep as <-. simpl in Ht.
       destruct (decide (t = t')) as [->|Hne].
       { rewrite lookup_insert in Ht. injection Ht as <-. discriminate. }
       rewrite lookup_insert_ne in Ht by congruence. exact (Hold th Ht Hst eq_refl).
     + destruct (c_threads c0 !! t') as [th0|] eqn:Ht'; [|discriminate].
-      destruct (reader_step (c_out c0) th0) as [[o' th']|] eqn:Hrs; [|discriminate].
+      destruct (reader_step (c_closed c0) (c_out c0) th0) as [[o' th']|] eqn:Hrs; [|discriminate].
       injection Hstep as <-. simpl in Ht.
       destruct (decide (t = t')) as [->|Hne].
       * rewrite lookup_insert in Ht. injection Ht as ->.
-        destruct (reader_step_cases _ _ _ _ HI Hrs) as (_ & _ & Hx & Hs0 & Hcase).
-        rewrite Hst in Hcase. destruct Hcase as [Hsucc _].
+        destruct (reader_step_cases _ _ _ _ _ HI Hrs) as (_ & _ & Hx & Hs0 & Hcase).
+        rewrite Hst in Hcase. destruct Hcase as (_ & Hsucc & _).
         exists ls, [LReader t'], c0, th0.
         split; [reflexivity|]. split; [exact Hex|]. split; [exact Ht'|]. split; [congruence|].
         split; [exact Hs0|]. rewrite <- Habs, Hx. exact Hsucc.
@@ -725,6 +794,9 @@ Proof.
       apply broadcast_lookup in Ht as (th0 & Ht0 & ->).
       apply (Hold th0 Ht0 (wake_done _ _ Hst)). symmetry. apply wake_x.
     + injection Hstep as <-. simpl in Ht. exact (Hold th Ht Hst eq_refl).
+    + injection Hstep as <-. simpl in Ht.
+      apply broadcast_lookup in Ht as (th0 & Ht0 & ->).
+      apply (Hold th0 Ht0 (wake_done _ _ Hst)). symmetry. apply wake_x.
 Qed.
 
 (* no lost wake-up: a reader suspended in Cond.Wait without a pending wake-up has no successor *)
@@ -732,18 +804,25 @@ Theorem no_lost_wakeup ls c t th :
   exec ls (Running c) -> c_threads c !! t = Some th -> t_st th = TWait ->
   no_successor (contents ls) (t_x th).
 Proof.
-  intros Hex. destruct (exec_inv _ _ Hex) as (c0 & [= <-] & [_ _ Hwait _]). apply Hwait.
+  intros Hex. destruct (exec_inv _ _ Hex) as (c0 & [= <-] & [_ _ Hwait _ _ _]). apply Hwait.
 Qed.
 
-(* ... hence a reader whose successor exists is runnable, and its next section returns it *)
+(* the stream is closed exactly when Close was among the operations *)
+Theorem closed_iff_close_happened ls c :
+  exec ls (Running c) -> c_closed c = is_closed ls.
+Proof. intros Hex. destruct (exec_inv _ _ Hex) as (c0 & [= <-] & [_ _ _ _ Hcl _]). exact Hcl. Qed.
+
+(* ... hence a reader whose successor exists is runnable, and (on a stream that has not been
+   closed) its next section returns it *)
 Theorem reader_returns_successor ls c t th k b :
-  exec ls (Running c) -> c_threads c !! t = Some th -> (forall r, t_st th <> TDone r) ->
+  exec ls (Running c) -> is_closed ls = false ->
+  c_threads c !! t = Some th -> (forall r, t_st th <> TDone r) ->
   is_successor (contents ls) (t_x th) k b ->
   exists c', cstep c (LReader t) = Some (Running c') /\
              c_threads c' !! t = Some (Thread (t_x th) (TDone (Some (k, b))) (t_cancelled th)).
 Proof.
-  intros Hex Ht Hnd Hsucc. destruct (exec_inv _ _ Hex) as (c0 & [= <-] & [HI Habs Hwait _]).
-  simpl. rewrite Ht.
+  intros Hex Hopen Ht Hnd Hsucc. destruct (exec_inv _ _ Hex) as (c0 & [= <-] & [HI Habs Hwait _ Hcl _]).
+  rewrite Hopen in Hcl. simpl. rewrite Ht, Hcl.
   pose proof (next_unlocked_spec (c_out c) (t_x th) HI) as Hspec. rewrite Habs in Hspec.
   assert (Hr : fst (next_unlocked (c_out c) (t_x th)) = Some (k, b)).
   { destruct (fst (next_unlocked (c_out c) (t_x th))) as [[k' b']|].
@@ -758,40 +837,72 @@ Proof.
   - exfalso. exact (Hnd r eq_refl).
 Qed.
 
-(* every Broadcast (Add, InterruptGetNext) makes every suspended reader runnable *)
+(* every Broadcast (Add, InterruptGetNext, Close) makes every suspended reader runnable *)
 Theorem broadcast_wakes_all c l c' t th :
-  (l = LInterrupt \/ exists id m, l = LAdd id m) ->
+  (l = LInterrupt \/ l = LClose \/ exists id m, l = LAdd id m) ->
   cstep c l = Some (Running c') -> c_threads c' !! t = Some th -> t_st th <> TWait.
 Proof.
-  intros [->|(id & m & ->)]; simpl.
+  intros [->|[->|(id & m & ->)]]; simpl.
   - intros [= <-] Ht. simpl in Ht. apply broadcast_lookup in Ht as (th0 & _ & ->). apply wake_st.
-  - destruct (add (c_out c) id m); [|discriminate]. intros [= <-] Ht. simpl in Ht.
+  - intros [= <-] Ht. simpl in Ht. apply broadcast_lookup in Ht as (th0 & _ & ->). apply wake_st.
+  - destruct (c_closed c); [discriminate|].
+    destruct (add (c_out c) id m); [|discriminate]. intros [= <-] Ht. simpl in Ht.
     apply broadcast_lookup in Ht as (th0 & _ & ->). apply wake_st.
 Qed.
 
 (* cancellation: a woken reader whose context is cancelled and who has no successor returns the
-   empty slice; and the empty slice is only ever returned to a cancelled caller *)
+   empty slice; and the empty slice is only ever returned to a cancelled caller or on a closed stream *)
 Theorem cancel_returns_empty ls c t th :
   exec ls (Running c) -> c_threads c !! t = Some th -> t_st th = TLoop -> t_cancelled th = true ->
   no_successor (contents ls) (t_x th) ->
   exists c', cstep c (LReader t) = Some (Running c') /\
              c_threads c' !! t = Some (Thread (t_x th) (TDone None) true).
 Proof.
-  intros Hex Ht Hst Hc Hnone. destruct (exec_inv _ _ Hex) as (c0 & [= <-] & [HI Habs _ _]).
+  intros Hex Ht Hst Hc Hnone. destruct (exec_inv _ _ Hex) as (c0 & [= <-] & [HI Habs _ _ _ _]).
   simpl. rewrite Ht.
   pose proof (next_unlocked_spec (c_out c) (t_x th) HI) as Hspec. rewrite Habs in Hspec.
-  unfold reader_step. rewrite Hst.
+  unfold reader_step. rewrite Hst. destruct (c_closed c).
+  { rewrite Hc. eexists. split; [reflexivity|]. simpl. apply lookup_insert. }
   destruct (next_unlocked (c_out c) (t_x th)) as [r o']. simpl in Hspec.
   destruct r as [[k b]|].
   - exfalso. exact (successor_excludes_none _ _ _ _ Hspec Hnone).
   - rewrite Hc. eexists. split; [reflexivity|]. simpl. apply lookup_insert.
 Qed.
 
-Theorem empty_only_if_cancelled ls c t th :
-  exec ls (Running c) -> c_threads c !! t = Some th -> t_st th = TDone None -> t_cancelled th = true.
+Theorem empty_only_if_cancelled_or_closed ls c t th :
+  exec ls (Running c) -> c_threads c !! t = Some th -> t_st th = TDone None ->
+  t_cancelled th = true \/ is_closed ls = true.
 Proof.
-  intros Hex. destruct (exec_inv _ _ Hex) as (c0 & [= <-] & [_ _ _ Hempty]). apply Hempty.
+  intros Hex Ht Hst. destruct (exec_inv _ _ Hex) as (c0 & [= <-] & [_ _ _ Hempty Hcl _]).
+  rewrite <- Hcl. exact (Hempty t th Ht Hst).
 Qed.
+
+(* Close wakes every reader and no GetNext blocks on a closed stream: after Close no reader is
+   suspended, and the next section of every reader that is running - whether it was parked when
+   Close happened or was started afterwards - returns the empty slice *)
+Theorem close_wakes_readers ls c t th :
+  exec ls (Running c) -> is_closed ls = true -> c_threads c !! t = Some th ->
+  t_st th <> TWait /\
+  ((t_st th = TStart \/ t_st th = TLoop) ->
+   exists c', cstep c (LReader t) = Some (Running c') /\
+              c_threads c' !! t = Some (Thread (t_x th) (TDone None) (t_cancelled th)) /\
+              c_closed c' = true).
+Proof.
+  intros Hex Hclosed Ht. destruct (exec_inv _ _ Hex) as (c0 & [= <-] & [_ _ _ _ Hcl Hnw]).
+  rewrite Hclosed in Hcl. split; [exact (Hnw Hcl t th Ht)|].
+  intros Hst. simpl. rewrite Ht, Hcl, (reader_step_closed _ _ Hst).
+  eexists. split; [reflexivity|]. simpl. split; [apply lookup_insert|reflexivity].
+Qed.
+
+(* a closed stream stays closed *)
+Theorem closed_is_stable ls l : is_closed ls = true -> is_closed (ls ++ [l]) = true.
+Proof. intros H. rewrite is_closed_snoc, H. reflexivity. Qed.
+
+(* executions without Close are exactly the executions of the semantics before Close existed:
+   the side condition on closed streams is vacuous for them *)
+Theorem no_close_discipline ls l :
+  is_closed ls = false -> (is_closed ls = true -> ok_after_close l).
+Proof. intros H H'. congruence. Qed.
 
 (* the discipline named in the property (ids increasing; Delete of anything but the sentinel,
    in any order — in particular oldest-first — including non-existing ids) is an instance *)
@@ -810,7 +921,7 @@ Proof.
   - rewrite contents_snoc. assert (IH' : is_Some (contents ls !! 0)).
     { apply IH. intros l' Hin. apply H. apply in_or_app. left. exact Hin. }
     assert (Hl : l <> LDelete 0) by (apply H; apply in_or_app; right; left; reflexivity).
-    destruct l as [id m|x| | | | | | ]; simpl; try exact IH'.
+    destruct l as [id m|x| | | | | | |]; simpl; try exact IH'.
     + destruct (decide (id = 0)) as [->|Hne]; [rewrite lookup_insert; eauto|].
       rewrite lookup_insert_ne by congruence. exact IH'.
     + assert (x <> 0) by congruence. rewrite lookup_delete_ne by congruence. exact IH'.
@@ -837,7 +948,7 @@ Definition ok_labelb (C : gmap N batch) (l : label) : bool :=
 
 Lemma ok_labelb_sound C l : ok_labelb C l = true -> ok_label C l.
 Proof.
-  destruct l as [id m|x| | | | | | ]; simpl; try tauto.
+  destruct l as [id m|x| | | | | | |]; simpl; try tauto.
   - rewrite !andb_true_iff. intros [[Hm Hid] Hall]. split; [|split].
     + destruct m; [discriminate|congruence].
     + apply N.ltb_lt. exact Hid.
@@ -850,11 +961,16 @@ Proof.
     + exists v. apply elem_of_map_to_list. apply elem_of_list_In. exact Hin.
 Qed.
 
+Definition ok_after_closeb (l : label) : bool :=
+  match l with LAdd _ _ | LDelete _ | LGet _ => false | _ => true end.
+Lemma ok_after_closeb_sound l : ok_after_closeb l = true -> ok_after_close l.
+Proof. destruct l; simpl; (discriminate || tauto). Qed.
+
 Fixpoint run_from (done : list label) (c : cstate) (todo : list label) : option cstate :=
   match todo with
   | [] => Some c
   | l :: r =>
-      if ok_labelb (contents done) l then
+      if ok_labelb (contents done) l && (negb (is_closed done) || ok_after_closeb l) then
         match cstep c l with
         | Some (Running c') => run_from (done ++ [l]) c' r
         | _ => None
@@ -868,10 +984,12 @@ Proof.
   induction todo as [|l r IH]; intros done c c' Hex; simpl.
   - intros [= <-]. rewrite app_nil_r. exact Hex.
   - destruct (ok_labelb (contents done) l) eqn:Hok; [|discriminate].
+    destruct (negb (is_closed done) || ok_after_closeb l) eqn:Hac; [|discriminate]. simpl.
     destruct (cstep c l) as [[c1|s]|] eqn:Hstep; try discriminate.
     intros Hrun. replace (done ++ l :: r) with ((done ++ [l]) ++ r) by (rewrite <- app_assoc; reflexivity).
     apply (IH _ c1); [|exact Hrun].
-    apply (exec_snoc done c l); [exact Hex|apply ok_labelb_sound; exact Hok|exact Hstep].
+    apply (exec_snoc done c l); [exact Hex|apply ok_labelb_sound; exact Hok| |exact Hstep].
+    intros Hcl. rewrite Hcl in Hac. simpl in Hac. apply ok_after_closeb_sound. exact Hac.
 Qed.
 
 Definition ex_b5 : batch := [Msg 1 "a" [1]].
@@ -927,4 +1045,23 @@ Proof.
   intros k' [v Hv]. unfold contents, ex_trace_cancel, ex_trace_wait in Hv. simpl in Hv.
   apply lookup_insert_Some in Hv as [[<- _]|[_ Hv]]; [lia|].
   unfold contents0 in Hv. apply lookup_singleton_Some in Hv as [<- _]. lia.
+Qed.
+
+(* a reader parked behind the newest batch, then Close: it is woken and answers empty; a reader
+   started on the closed stream answers empty although a successor of its position exists *)
+Definition ex_trace_close : list label :=
+  [LAdd 5 ex_b5; LSpawn 1 5; LReader 1; LReader 1; LClose; LSpawn 2 0].
+Example close_premises_met :
+  exists c th1 th2, exec ex_trace_close (Running c) /\ is_closed ex_trace_close = true /\
+    c_threads c !! 1%nat = Some th1 /\ t_st th1 = TLoop /\
+    c_threads c !! 2%nat = Some th2 /\ t_st th2 = TStart.
+Proof.
+  assert (Hp : (fun c => (thread_view c 1, thread_view c 2)) <$> run_from [] cinit ex_trace_close
+               = Some (Some (5, TLoop, false), Some (0, TStart, false))) by (vm_compute; reflexivity).
+  destruct (run_from [] cinit ex_trace_close) as [c|] eqn:Hrun; [|discriminate Hp].
+  simpl in Hp. injection Hp as Hp1 Hp2. unfold thread_view in Hp1, Hp2.
+  destruct (c_threads c !! 1%nat) as [th1|] eqn:Ht1; [|discriminate Hp1]. simpl in Hp1. injection Hp1 as A1 A2 A3.
+  destruct (c_threads c !! 2%nat) as [th2|] eqn:Ht2; [|discriminate Hp2]. simpl in Hp2. injection Hp2 as B1 B2 B3.
+  exists c, th1, th2. split; [exact (run_from_init_exec _ _ Hrun)|]. split; [reflexivity|].
+  split; [exact Ht1|]. split; [assumption|]. split; [exact Ht2|assumption].
 Qed.
